@@ -15,6 +15,7 @@
 import itertools
 import json
 import random
+import time
 from fractions import Fraction
 
 import numpy as np
@@ -403,6 +404,7 @@ def run(tier, seed):
     max_w, max_s = (3, 4) if quick else (3, 5)
     stride, big = (8, 12) if quick else (2, 15)
     mps = [mp_list(nw, random.Random(seed * 1000 + nw)) for nw in range(1, max_w + 1)]
+    t_start = time.time()
     wd = lib.workdir(PID, "gen")
     (wd / "mps.json").write_text(json.dumps(mps))
     g = lib.run_tlc("FromSamplesGen", lib.cfg(constants={"MaxW": max_w, "MaxS": max_s, "Stride": stride, "BigBits": big},
@@ -414,6 +416,7 @@ def run(tier, seed):
     if len(g.json_lines) != n_arrays:
         raise lib.MachineryError(f"generator emitted {len(g.json_lines)} arrays, expected {n_arrays}")
 
+    t_gen = time.time() - t_start
     built = [[build(r, LABELS) for r in lst] for lst in mps]
     found = {}                                   # key -> [Violation, occurrences]
 
@@ -477,14 +480,14 @@ def run(tier, seed):
     if evals < 1000:
         raise lib.MachineryError("vacuous replay")
 
+    t_replay = time.time() - t_start - t_gen
     # negative controls of the comparator: a corrupted expected value must be rejected
     rejected = 0
     for rec, out, exp, nw in controls:
         bad = json.loads(json.dumps(exp))
         if rec["kind"] == "probs":
             i = next(i for i, q in enumerate(bad) if q[0] != 0)
-            j = next(j for j, q in enumerate(bad) if q != bad[i])
-            bad[i], bad[j] = bad[j], bad[i]
+            bad[i] = [bad[i][0] + 1, bad[i][1] + 1]
         elif rec["kind"] in ("expval", "var"):
             bad = pair(Fraction(*bad) + Fraction(1, 64))
         elif rec["kind"] == "counts":
@@ -642,7 +645,8 @@ def run(tier, seed):
            "model_drift": t_strided,
            "model_drift_meaning": "binned statistics that use the strided partition of the shot range (bin j = shots j, j + nbins, ...) instead "
                                   "of consecutive shots; accepted, the statement does not fix the partition",
-           "negative_controls_rejected": rejected + len(neg)}
+           "negative_controls_rejected": rejected + len(neg),
+           "wall_s": {"tlc_generator": round(t_gen, 1), "replay": round(t_replay, 1), "tlc_trace": round(r.wall_s, 1)}}
     return CheckResult(coverage=cov, violations=viol, assumptions=[
         "eigenvalue tables and observable coefficients are dyadic rationals (exact floats); outputs are compared at 1e-10 absolute "
         "(replay) resp. converted to the nearest rational with the denominator the arithmetic allows, round trip 1e-9 (trace)",
